@@ -6,7 +6,7 @@ E1  TLC, exhaustive, on the implementation-level spec spec/spsc/Spsc.tla (one ac
     pop iff empty at the instant of that thread's load of the peer index), QuiescentExact,
     LifetimeOK, ResultsMatch, ObserversInRange, QuiescentAccounting, NoLeakAfterDestroy in every
     state of every interleaving; ALL producer x consumer histories of length L (quick 2, thorough 3)
-    over the operation alphabets for kBufferSize 2,3,4 (quick: reduced alphabets); thorough adds fixed 4-op programs with a
+    over the operation alphabets for kBufferSize 2,3,4 (quick: 2,3 and reduced alphabets); thorough adds fixed 4-op programs with a
     third, observing thread for kBufferSize 2..5.
 E2  every transition of the cover configuration's state graph is replayed in the real
     SPSCRingBuffer<Tracked,2,false> under the controlled scheduler ...
@@ -34,7 +34,7 @@ def run(ctx):
     ctx.check_model(SPEC, 'MCSpsc.tla', 'MC_cover.cfg', WHAT, label='cover 1P+1C, n=3, 4 ops each',
                     dump=dot, vacuity_exempt=('ObsBoth', 'ObsBoth2'), workers=4, java_opts=JOPTS)
     ctx.check_model(SPEC, 'MCSpsc.tla', 'MC_all2q.cfg', WHAT, vacuity_exempt=('Init', 'ObsLd1', 'ObsLd2'),
-                    label='all producer x consumer histories of length 2 (reduced alphabets), n=2,3,4', workers=4, java_opts=JOPTS)
+                    label='all producer x consumer histories of length 2 (reduced alphabets), n=2,3', workers=4, java_opts=JOPTS)
     if thorough:
         ctx.check_model(SPEC, 'MCSpsc.tla', 'MC_all2.cfg', WHAT, vacuity_exempt=('Init',),
                         label='all producer x consumer histories of length 2, n=2,3,4', workers=4, java_opts=JOPTS)
@@ -56,7 +56,7 @@ def run(ctx):
     execs = tot.get('completed', 0)
     parts.append(tr)
     ctx.sample_trace(tr, 14)
-    n = 6000 if thorough else 400
+    n = 3000 if thorough else 400
     for pct in (0, 3):
         tr = os.path.join(ctx.work, 'rand_p%d.ndjson' % pct)
         tot, _ = ctx.driver(exe, ['--out', tr, '--ring', 'mix', '--random', n, '--seed', ctx.seed + 7 * pct,
